@@ -311,6 +311,28 @@ impl StatefulWidget for InputWidget {
     }
 }
 
+/// Hooks for the external verification harness. Additive only; compiled in
+/// with the (non-default) cargo feature `verif-hooks`.
+#[cfg(feature = "verif-hooks")]
+impl InputState {
+    /// Cursor position (in chars) inside the input.
+    pub fn verif_cursor(&self) -> usize {
+        self.input_index
+    }
+    /// The recorded history.
+    pub fn verif_history(&self) -> &[String] {
+        &self.history
+    }
+    /// The current position in the history.
+    pub fn verif_history_index(&self) -> Option<usize> {
+        self.history_index
+    }
+    /// The current completions and the selected index.
+    pub fn verif_completions(&self) -> Option<&(Vec<Vec<char>>, usize)> {
+        self.curr_completions.as_ref()
+    }
+}
+
 #[cfg(test)]
 mod tests {
     use super::*;
